@@ -9,7 +9,7 @@ from ufo import build, err_kind
 
 ID = "C07"
 THEOREM = ("Ufo2ft.C07.C07_main / C07_frame / C07_history / C07_signatures / C07_leaks_nil / C07_attribution / "
-           "applyAll_frame / run_safe / witnessMath_fails / witnessColor_fails / witnessDC_fails / witnessPropagate_fails")
+           "applyAll_frame / run_safe / witnessMath_fails / witnessColor_fails / witnessDC_fails / witnessPropagate_now / witnessPropagate_old_fails")
 N = {"quick": 900, "thorough": 20000}
 RULE = ("each case = sources (generated rich fonts: curves, nested/transformed components, anchors, kerning, groups, features, "
         "nested glyph/layer/font libs, extra layers; or fixture UFOs/designspaces of tests/data loaded into memory; ufoLib2 and defcon) "
@@ -23,8 +23,9 @@ RULE = ("each case = sources (generated rich fonts: curves, nested/transformed c
         "observation. Fixed head: the fixtures carrying MATH / colour-layer / dotted-circle data and the mixed-composite "
         "designspace shape. "
         "non-trivial = the call has a custom/lib filter, an active skipExportGlyphs list, several sources, inplace, or activates "
-        "one of the reaching stages (setupTable_MATH, ExplodeColorLayerGlyphsFilter, DottedCircleFilter, PropagateAnchorsIFilter "
-        "through the Instantiator).")
+        "one of the three reaching stages (setupTable_MATH, ExplodeColorLayerGlyphsFilter, DottedCircleFilter). The "
+        "PropagateAnchorsIFilter-through-the-Instantiator leak was repaired in /repo 61a81a2: the model predicts no leak for it "
+        "any more, its fixed-head cases stay, and classify_failure still names the shape so that a recurrence is reported.")
 ASSUMED = [
     "the effect signatures (which glyph fields each shipped filter writes, that table builders / feature writers / the "
     "post-processor / varLib merge write only into the new TTFont) are validated by the before/after snapshots, not derived "
@@ -32,7 +33,7 @@ ASSUMED = [
     "snapshot completeness: a mutation of caller data that is invisible to the UFO object API (private caches) is not observed; "
     "DesignSpaceDocument.default (memo of findDefault) is not counted as document content",
     "writes that the model marks `may` (value-dependent: outline after removeOverlaps/cu2qu on an aliased glyph, feature text "
-    "re-serialisation, anchors appended through the stale Instantiator) are only checked as an upper bound",
+    "re-serialisation; with inplace=True also anchors appended through the Instantiator) are only checked as an upper bound",
     "facts about the sources that the model takes as measured input: Python `==` between a glyph-set copy and a layer glyph, "
     "truthiness of a glyph's bounds width, presence of `table GDEF` in the feature text",
 ]
@@ -706,11 +707,28 @@ def agree(req, rep):
 KNOWN_STAGES = ("setupTable_MATH", "ExplodeColorLayerGlyphsFilter", "DottedCircleFilter", "PropagateAnchorsIFilter")
 
 
+def _propagate_shape(res):
+    """the leak repaired by /repo 61a81a2, recognised from the observation alone (the model no longer predicts it):
+    a designspace entry point without inplace, propagateAnchors among the filters, and nothing changed but
+    `anchors` of source glyphs"""
+    q = res["req"]
+    cfg, ch = q["in"]["cfg"], q["obs"]["changed"]
+    if cfg.get("inplace") or cfg["fn"] in ("compileTTF", "compileOTF", "compileInterpolatableTTFs") or not ch:
+        return False
+    if not all(c[0] == "glyph" and c[-1] == "anchors" for c in ch):
+        return False
+    specs = [f for f in (cfg.get("filtersArg") or []) if f] + [f for fd in q["in"]["fonts"] for f in fd["lib"]["filters"]]
+    return any(f["kind"] == "PropagateAnchorsFilter" for f in specs)
+
+
 def classify_failure(res):
     """A failing observation is a known finding only if the model predicts it (consistent) and blames every
-    changed cell on reaching stages; the shape is that set of stages."""
-    if not res["agree"] or res["holds"]:
+    changed cell on reaching stages; the shape is that set of stages.  The repaired PropagateAnchorsIFilter leak is
+    named too (known_findings lists it as `fixed`, which suppresses nothing: its return is a VIOLATION)."""
+    if res["holds"]:
         return None
+    if not res["agree"]:
+        return {"leak": ["PropagateAnchorsIFilter"]} if _propagate_shape(res) else None
     stages = res["model"].get("blame")
     if not stages or any(s not in KNOWN_STAGES for s in stages):
         return None
@@ -747,10 +765,11 @@ LEVEL_TEXT = ("Proved for all inputs (Lean): over an explicit object store with 
               "handles that designate objects made during the call leaves every caller-owned cell unchanged (frame theorem by "
               "induction over the stage list); for all nine entry points, any number of sources and any combination of options and "
               "shipped/custom filters, a configuration without inplace and without MATH data, colour-layer trigger or dotted-circle "
-              "filter (nor propagateAnchors in a designspace entry point) has such a pipeline (signature table), so its predicted leak set is empty; for every configuration without "
-              "inplace each predicted leak is attributed to setupTable_MATH, ExplodeColorLayerGlyphsFilter, DottedCircleFilter or "
-              "PropagateAnchorsIFilter (via the Instantiator's stale source layers); for those four the property is proved FALSE on "
-              "concrete witnesses (the model follows the code as it is). Tied to the code by deep before/after snapshots "
+              "filter has such a pipeline (signature table), so its predicted leak set is empty; for every configuration without "
+              "inplace each predicted leak is attributed to setupTable_MATH, ExplodeColorLayerGlyphsFilter or DottedCircleFilter; "
+              "for those three the property is proved FALSE on concrete witnesses (the model follows the code as it is). The fourth "
+              "leak found by this check (PropagateAnchorsIFilter reaching the sources through the Instantiator) was repaired in /repo "
+              "61a81a2: proved false for the separately kept OLD pipeline, proved to hold for the current one on the same witness. Tied to the code by deep before/after snapshots "
               "of all source fonts and the designspace document around every public compile function, compared with the model's "
               "predicted leak set.")
 LEVEL_NOTE = ("Partial: the effect signatures are data validated by observation (snapshots), not derived from the Python source; "
